@@ -1,13 +1,2 @@
 import CatiiModel.IIndex
--- GENERATED by tools/translate_common.py from iindex.shift_common (the `new_common is None` block); do not edit.
-namespace Catii.Gen
-open Catii.IIdx
-
-/-- the value `shift_common()` picks when none is given (none: `max()` of an empty list raises) -/
-def chooseCommonGen (i : IIndex) : Option Int :=
-  let counts : List (Int × Int) := []
-  let counts := i.entries.foldl (fun counts (coords, rowids) => cadd counts (val0 coords) rowids.length) counts
-  let counts := cset counts i.common ((i.size : Int) - (counts.map (·.2)).foldl (· + ·) 0)
-  argmaxCount counts
-
-end Catii.Gen
+-- translation FAILED: shift_common chooses the common value differently: expected `counts[self.common] = self.size - sum(counts.values())`, found `counts[self.common] = int(self.size * self.sparsity / 100)`
